@@ -44,8 +44,8 @@ RFC_EXAMPLES = [u'mailto:John.Doe@example.com', u'urn:isbn:0451450523', u'tel:+1
 def gen_ref(rng):
 	kind = rng.randrange(8)
 	segs = u'/'.join(rng.choice(RSEGS) for _ in range(rng.randrange(1, 6)))
-	q = rng.choice([u'', u'', u'?y', u'?y=1&z', u'?t=12:30', u'?u=http://o/i', u'?a/b', u'?a@b', u'?a%20b=c%26d', u'?%41=%7e', u'?k=%C3%9C', u'?%E2%82%AC=%C3%9F', u'?x=%C2%80', u'?x=1%2B1', u'?a%2Bb=c+d', u'?+=%2B', u'?y?z', u'?a=b?c=d', u'??'])
-	f = rng.choice([u'', u'', u'#s', u'#a:b', u'#x/y', u'#//z', u'#a%20b', u'#%41', u'#%C3%A9', u'#a%2Fb?c', u'#%25'])
+	q = rng.choice([u'', u'', u'?y', u'?y=1&z', u'?t=12:30', u'?u=http://o/i', u'?a/b', u'?a@b', u'?a%20b=c%26d', u'?%41=%7e', u'?k=%C3%9C', u'?%E2%82%AC=%C3%9F', u'?x=%C2%80', u'?x=1%2B1', u'?a%2Bb=c+d', u'?+=%2B', u'?y?z', u'?a=b?c=d', u'??', u'?lang=c++', u'?+x', u'?+', u'?x+', u'?a=1&+'])
+	f = rng.choice([u'', u'', u'#s', u'#a:b', u'#x/y', u'#//z', u'#a%20b', u'#%41', u'#%C3%A9', u'#a%2Fb?c', u'#%25', u'#t=10,20', u'#a+b', u'#a&b=c', u'#+', u"#!$'()*;"])
 	if kind == 0:
 		return rng.choice([u'http', u'https', u'ftp', u'x']) + u'://' + rng.choice([u'b', u'B.c', u'u@b:81']) + u'/' + segs + q + f
 	if kind == 1:
